@@ -14,6 +14,9 @@ def dispatch (name : String) (a : Array Float) (b : Array Bool) : Option (List F
   | "weighted_average" => if a.size = 4 ∧ b.size = 1 then some ([(weighted_average (α := Float) a[0]! a[1]! a[2]! a[3]! b[0]!)]) else none
   | "pcube_iadd" => if a.size = 14 ∧ b.size = 0 then some (let r := (pcube_iadd (α := Float) a[0]! a[1]! a[2]! a[3]! a[4]! a[5]! a[6]! a[7]! a[8]! a[9]! a[10]! a[11]! a[12]! a[13]!); [r.1, r.2.1, r.2.2.1, r.2.2.2.1, r.2.2.2.2.1, r.2.2.2.2.2.1, r.2.2.2.2.2.2]) else none
   | "lc_iadd" => if a.size = 6 ∧ b.size = 0 then some (let r := (lc_iadd (α := Float) a[0]! a[1]! a[2]! a[3]! a[4]! a[5]!); [r.1, r.2.1, r.2.2]) else none
+  | "pp_iadd" => if a.size = 4 ∧ b.size = 0 then some (let r := (pp_iadd (α := Float) a[0]! a[1]! a[2]! a[3]!); [r.1, r.2]) else none
+  | "pha1_iadd" => if a.size = 4 ∧ b.size = 0 then some (let r := (pha1_iadd (α := Float) a[0]! a[1]! a[2]! a[3]!); [r.1, r.2]) else none
+  | "mdpcube_iadd" => if a.size = 13 ∧ b.size = 0 then some (let r := (mdpcube_iadd (α := Float) a[0]! a[1]! a[2]! a[3]! a[4]! a[5]! a[6]! a[7]! a[8]! a[9]! a[10]! a[11]! a[12]!); [r.1, r.2.1, r.2.2.1, r.2.2.2.1, r.2.2.2.2.1, r.2.2.2.2.2.1, r.2.2.2.2.2.2.1, r.2.2.2.2.2.2.2]) else none
   | "align_stokes_parameters" => if a.size = 4 ∧ b.size = 0 then some (let r := (align_stokes_parameters (α := Float) a[0]! a[1]! a[2]! a[3]!); [r.1, r.2]) else none
   | "delta_phi_ampl" => if a.size = 4 ∧ b.size = 0 then some ([(delta_phi_ampl (α := Float) a[0]! a[1]! a[2]! a[3]!)]) else none
   | "delta_phi_stokes" => if a.size = 3 ∧ b.size = 0 then some ([(delta_phi_stokes (α := Float) a[0]! a[1]! a[2]!)]) else none
